@@ -1,6 +1,6 @@
 from lib.runner import PropCheck, Stream
 
-DATA_OPS = {"put", "get", "del", "list", "rotate", "rotroot", "setroot", "mkupgrade", "chkupgrade", "rmupgrade",
+DATA_OPS = {"put", "get", "del", "list", "probe", "rotate", "rotroot", "setroot", "mkupgrade", "chkupgrade", "rmupgrade",
             "keyinfo", "verifyroot", "reloadroot"}
 
 
